@@ -183,6 +183,10 @@ pub struct Node {
     pub fired_any: bool,
     /// woke itself inside its most recent poll (reach probe)
     pub self_woke: bool,
+    /// F14: when this leaf is dropped it invokes the most recent waker of the sibling at this (wrapped) position
+    pub drop_wake: Option<u32>,
+    /// the handle given to the code under test has no drop glue: its drops cannot be observed
+    pub untracked_drop: bool,
     /// zip: item buffered for the current row
     pub buffered: Option<u32>,
     /// values this node produced, in order
@@ -220,6 +224,8 @@ impl Node {
             fired_cur: false,
             fired_any: false,
             self_woke: false,
+            drop_wake: None,
+            untracked_drop: false,
             buffered: None,
             produced: Vec::new(),
             final_val: None,
@@ -274,6 +280,8 @@ pub struct Knobs {
     pub p_same_waker: u32,
     pub p_by_value: u32,
     pub p_eager_poll: u32,
+    /// a leaf fires a waker (its own or a sibling's) from its destructor (F14), out of 16
+    pub p_drop_wake: u32,
     pub spurious_budget: u32,
     pub stale_budget: u32,
 }
@@ -296,6 +304,7 @@ pub struct Stats {
     pub f_slot_reuse: u64,
     pub f_growth: u64,
     pub f_delayed: u64,
+    pub f_drop_wake: u64,
     pub p_repoll_after_selfwake: u64,
     pub p_bit_already_set: u64,
     pub p_zip_late_row: u64,
@@ -305,6 +314,8 @@ pub struct Stats {
     pub p_err_in_flush: u64,
     pub p_err_saturated: u64,
     pub p_err_in_progress: u64,
+    /// a single poll of a concurrent-stream operation in which 64 or more work futures completed
+    pub p_bulk_frame64: u64,
     pub p_big_len: u64,
     pub p_remove_live: u64,
     pub p_refill: u64,
@@ -332,8 +343,8 @@ impl Stats {
         acc!(
             f_spurious, f_new_waker, f_same_waker, f_stale, f_dup, f_inpoll, f_selfnow, f_lock,
             f_after_done, f_after_drop, f_cancel, f_panic, f_never, f_slot_reuse, f_growth,
-            f_delayed, p_repoll_after_selfwake, p_bit_already_set, p_zip_late_row, p_multi_end, p_multi_end_gt10,
-            p_backpressure, p_err_in_flush, p_err_saturated, p_err_in_progress, p_big_len, p_remove_live, p_refill, o_lr_frames, o_cp1, o_cp2, o_quiescence, o_c16, o_c20, o_group_view,
+            f_delayed, f_drop_wake, p_repoll_after_selfwake, p_bit_already_set, p_zip_late_row, p_multi_end, p_multi_end_gt10,
+            p_backpressure, p_err_in_flush, p_err_saturated, p_err_in_progress, p_bulk_frame64, p_big_len, p_remove_live, p_refill, o_lr_frames, o_cp1, o_cp2, o_quiescence, o_c16, o_c20, o_group_view,
             o_co_final, o_drop_accounting, root_polls,
             child_polls, wakes, group_ops, vtime, steps
         );
@@ -343,8 +354,8 @@ impl Stats {
         lst!(
             f_spurious, f_new_waker, f_same_waker, f_stale, f_dup, f_inpoll, f_selfnow, f_lock,
             f_after_done, f_after_drop, f_cancel, f_panic, f_never, f_slot_reuse, f_growth,
-            f_delayed, p_repoll_after_selfwake, p_bit_already_set, p_zip_late_row, p_multi_end, p_multi_end_gt10,
-            p_backpressure, p_err_in_flush, p_err_saturated, p_err_in_progress, p_big_len, p_remove_live, p_refill, o_lr_frames, o_cp1, o_cp2, o_quiescence, o_c16, o_c20, o_group_view,
+            f_delayed, f_drop_wake, p_repoll_after_selfwake, p_bit_already_set, p_zip_late_row, p_multi_end, p_multi_end_gt10,
+            p_backpressure, p_err_in_flush, p_err_saturated, p_err_in_progress, p_bulk_frame64, p_big_len, p_remove_live, p_refill, o_lr_frames, o_cp1, o_cp2, o_quiescence, o_c16, o_c20, o_group_view,
             o_co_final, o_drop_accounting, root_polls,
             child_polls, wakes, group_ops, vtime, steps
         )
@@ -507,6 +518,10 @@ impl World {
         if term == Terminal::Never {
             self.stats.f_never += 1;
         }
+        if !self.suppress_faults && self.knobs.p_drop_wake > 0 && self.ch.chance("leaf.dropwake", self.knobs.p_drop_wake, 16) {
+            let to = self.ch.draw("leaf.dropwake.to", 8);
+            self.nodes[id as usize].drop_wake = Some(to);
+        }
         id
     }
 
@@ -648,6 +663,27 @@ impl World {
             self.flag("c02.child_drop", || format!("child n{id} dropped while it is being polled"));
         }
         crate::oracle::on_node_dropped(self, id);
+    }
+
+    /// F14: which node's waker does leaf `id` fire from its destructor (if any, and if that is possible now)?
+    pub fn drop_wake_target(&mut self, id: NodeId) -> Option<NodeId> {
+        let raw = self.nodes.get(id as usize)?.drop_wake?;
+        if self.suppress_faults || self.in_fire > 0 {
+            return None;
+        }
+        let parent = self.nodes[id as usize].parent;
+        if parent == NO_NODE {
+            return None;
+        }
+        let sibs = &self.nodes[parent as usize].children;
+        let t = sibs[raw as usize % sibs.len()];
+        let n = &self.nodes[t as usize];
+        if !n.is_leaf() || !n.handed.iter().any(|h| h.0 == n.cur_wid) {
+            return None;
+        }
+        self.stats.f_drop_wake += 1;
+        self.emit(Ev::Fault { what: "wake fired from a child's destructor", arg: t });
+        Some(t)
     }
 
     // ---------------------------------------------------------------- executor bits
